@@ -177,11 +177,11 @@ func (s *simState) find(u string) *simList {
 // none explains the observation: the one that gets furthest.
 const (
 	stAnswer = iota
+	stUpdated
 	stListSet
 	stFile
 	stStray
 	stCount
-	stUpdated
 	stStamp
 	stVerdict
 )
@@ -442,13 +442,15 @@ func (r *run) simulate(tasks []ParTask, order []int, obs []*taskObs, refreshers 
 
 // parObs is the system's state after the phase.
 type parObs struct {
-	st       *ls.Status
-	all      []ls.FilterJSON
-	files    map[int64]ls.FileState
-	names    []string
-	verdicts []string
-	before   map[int64]string // last_updated before the phase
-	stamp    string           // the phase's instant as the status prints it
+	st         *ls.Status
+	all        []ls.FilterJSON
+	files      map[int64]ls.FileState
+	names      []string
+	verdicts   []string
+	before     map[int64]string // last_updated before the phase
+	stamp      string           // the phase's instant as the status prints it
+	strays     bool             // data/filters holds a file of no list
+	strayNames []string
 }
 
 func verdictFor(lists []*simList, lines map[*simList][]string, v int) (reason string, ok bool) {
@@ -543,12 +545,16 @@ func (r *run) judge(s *simState, ob *parObs) *mismatch {
 			return mm(stFile, "stored-not-normal-form", "%s: the stored file is not in normal form", where)
 		}
 	}
-	// 3. nothing else in the directory.
+	// 3. what else is in the directory.  A file that belongs to no list (left
+	// behind by an add_url that lost against another one, or re-created by a
+	// refresh for a list removed meanwhile) is untidy, but the statement speaks
+	// of the files of the lists that exist: it is counted, not judged.
 	for _, nm := range ob.names {
 		if known[nm] || strings.HasSuffix(nm, ".old") {
 			continue
 		}
-		return mm(stStray, "par-stray-file", "data/filters contains %q, which belongs to no list of this order", nm)
+		ob.strays = true
+		ob.strayNames = append(ob.strayNames, nm)
 	}
 	// 4. rule counts.
 	for i, l := range s.lists {
@@ -1003,12 +1009,9 @@ func (r *run) diagnose(op Op, obs []*taskObs, ob *parObs) (class, what string) {
 	for _, l := range r.lists {
 		o, still := now[l.id]
 		if !still {
-			// a list removed in the phase: its file must be gone
-			if have[fmt.Sprintf("%d.txt", l.id)] {
-				fs, _ := ls.ReadFileState(r.n.ListPath(l.id))
-				_, who := refreshed(l.url)
-				return "removed-list-file-resurrected", fmt.Sprintf("the list id=%d url#%d was removed by a remove_url of this phase, yet data/filters/%d.txt exists afterwards (%d bytes, sha %s), written by a refresh (tasks %v) that had taken the list into its work set before the removal", l.id, urlIdx(l.url), l.id, len(fs.Data), sha(fs.Data), who)
-			}
+			// a list removed in the phase: a file re-created for it by a
+			// refresh that had snapshotted it belongs to no list (counted in
+			// judge, not judged).
 			continue
 		}
 		if o.URL != l.url {
@@ -1019,11 +1022,34 @@ func (r *run) diagnose(op Op, obs []*taskObs, ob *parObs) (class, what string) {
 				nf, _ := ls.NormalForm(b)
 				fromNew := false
 				for i := range op.Tasks {
+					if obs[i].code >= 400 {
+						// a rejected request stores nothing: what it was
+						// served does not explain the file
+						continue
+					}
 					for _, rec := range obs[i].byURL(o.URL) {
 						if x, _ := ls.NormalForm(rec.Reply.Body); string(x) == string(nf) {
 							fromNew = true
 						}
 					}
+				}
+				// (the listed finding leaves the metadata as set_url set them: when
+				// rules_count is not that of any text set_url downloaded, this is
+				// something else)
+				metaFromSetURL, any := false, false
+				for i, pt := range op.Tasks {
+					if pt.K != "seturl" || obs[i].code != 200 {
+						continue
+					}
+					for _, rec := range obs[i].byURL(o.URL) {
+						if _, xl := ls.NormalForm(rec.Reply.Body); r.classify(rec) != expOld {
+							any = true
+							metaFromSetURL = metaFromSetURL || len(xl) == int(o.RulesCount)
+						}
+					}
+				}
+				if o.Enabled && any && !metaFromSetURL {
+					continue
 				}
 				if fs.Exists && string(nf) == string(fs.Data) && !fromNew {
 					return "seturl-overwritten-by-stale-refresh", fmt.Sprintf("set_url moved the list id=%d from url#%d to url#%d, and afterwards its file holds what task %d (a refresh that had taken the list into its work set under the old location) downloaded from url#%d (sha %s), while the reported rules_count=%d and the remembered checksum are those set_url left", l.id, urlIdx(l.url), urlIdx(o.URL), who[k], urlIdx(l.url), sha(fs.Data), o.RulesCount)
@@ -1031,20 +1057,49 @@ func (r *run) diagnose(op Op, obs []*taskObs, ob *parObs) (class, what string) {
 			}
 		}
 	}
-	ids := map[string]bool{}
-	for _, o := range ob.all {
-		ids[fmt.Sprintf("%d.txt", o.ID)] = true
-	}
+	// a list that a set_url of the phase downloaded (same location: disabled
+	// and enabled again) and a refresh downloaded, too: the file of the one with
+	// the rules_count of the other
 	for _, l := range r.lists {
-		ids[fmt.Sprintf("%d.txt", l.id)] = true
-	}
-	for _, nm := range ob.names {
-		if ids[nm] || strings.HasSuffix(nm, ".old") {
+		o, still := now[l.id]
+		fs := ob.files[l.id]
+		if !still || o.URL != l.url || !o.Enabled || !fs.Exists {
 			continue
 		}
+		type text struct {
+			nf    string
+			lines int
+			task  int
+		}
+		var byRefresh, bySetURL []text
 		for i, pt := range op.Tasks {
-			if pt.K == "add" && obs[i].code == 400 {
-				return "rejected-add-left-file", fmt.Sprintf("data/filters/%s belongs to no list: task %d (add_url url#%d) downloaded the list into the file of a fresh id and was then rejected (%s)", nm, i, pt.U, strings.TrimSpace(string(obs[i].body)))
+			if obs[i].busy || (pt.K == "seturl" && obs[i].code != 200) {
+				continue
+			}
+			for _, rec := range obs[i].byURL(l.url) {
+				if r.classify(rec) == expOld {
+					continue
+				}
+				nf, lines := ls.NormalForm(rec.Reply.Body)
+				switch pt.K {
+				case "refresh", "periodic":
+					byRefresh = append(byRefresh, text{string(nf), len(lines), i})
+				case "seturl":
+					bySetURL = append(bySetURL, text{string(nf), len(lines), i})
+				}
+			}
+		}
+		for _, a := range byRefresh {
+			for _, b := range bySetURL {
+				if a.lines == b.lines {
+					continue
+				}
+				if string(fs.Data) == b.nf && int(o.RulesCount) == a.lines {
+					return "stale-refresh-written-back-after-seturl", fmt.Sprintf("the list id=%d url#%d holds in its file what set_url (task %d, which enabled it again) downloaded (%d rule lines, sha %s) but reports rules_count=%d, that of the text the refresh (task %d) had downloaded before and wrote back into the list afterwards", l.id, urlIdx(l.url), b.task, b.lines, sha(fs.Data), o.RulesCount, a.task)
+				}
+				if string(fs.Data) == a.nf && int(o.RulesCount) == b.lines {
+					return "stale-refresh-written-back-after-seturl", fmt.Sprintf("the list id=%d url#%d reports rules_count=%d, that of the text set_url (task %d, which enabled it again) downloaded, but its file holds what the refresh (task %d) downloaded (%d rule lines, sha %s) and stored afterwards", l.id, urlIdx(l.url), o.RulesCount, b.task, a.task, a.lines, sha(fs.Data))
+				}
 			}
 		}
 	}
@@ -1115,6 +1170,15 @@ func (r *run) commitPar(op Op, s *simState, ob *parObs) error {
 	}
 	if len(s.removed) > 0 {
 		c.Probe("list_removed")
+	}
+	if ob.strays {
+		c.Probe("par_file_of_no_list_left_behind")
+		if r.leftover == nil {
+			r.leftover = map[string]bool{}
+		}
+		for _, nm := range ob.strayNames {
+			r.leftover[nm] = true
+		}
 	}
 	r.lists = lists
 	for v := range r.body {
